@@ -484,6 +484,24 @@ var c13Muts = []c13Mut{
 		d.dirs = append(d.dirs, sDirUse{name: "need"})
 		return "need"
 	}},
+	{"R10-null-for-non-null-directive-argument-with-default", func(r *Rng, s *sSet) string {
+		s.defs = append(s.defs, &sDef{kind: "directive", name: "limit", locs: []string{"OBJECT"}, dirArgs: []*sArg{{name: "max", t: nonNull(named("Int")), dflt: "10"}}})
+		d := s.pick(r, "object")
+		d.dirs = append(d.dirs, sDirUse{name: "limit", args: [][2]string{{"max", "null"}}})
+		return "Int!"
+	}},
+	{"R10-null-for-non-null-directive-argument", func(r *Rng, s *sSet) string {
+		s.defs = append(s.defs, &sDef{kind: "directive", name: "limit", locs: []string{"OBJECT"}, dirArgs: []*sArg{{name: "max", t: nonNull(named("Int"))}}})
+		d := s.pick(r, "object")
+		d.dirs = append(d.dirs, sDirUse{name: "limit", args: [][2]string{{"max", "null"}}})
+		return "Int!"
+	}},
+	{"V-null-for-nullable-directive-argument-with-default", func(r *Rng, s *sSet) string {
+		s.defs = append(s.defs, &sDef{kind: "directive", name: "limit", locs: []string{"OBJECT"}, dirArgs: []*sArg{{name: "max", t: named("Int"), dflt: "10"}}})
+		d := s.pick(r, "object")
+		d.dirs = append(d.dirs, sDirUse{name: "limit", args: [][2]string{{"max", "null"}}})
+		return "limit"
+	}},
 	{"R10-uncoercible-directive-argument-on-type", func(r *Rng, s *sSet) string {
 		s.defs = append(s.defs, &sDef{kind: "directive", name: "mark", locs: []string{"OBJECT", "FIELD_DEFINITION"}, dirArgs: []*sArg{{name: "n", t: named("Int")}}})
 		d := s.pick(r, "object")
